@@ -212,6 +212,9 @@ class MibCompiler(object):
         canonicalMibNames = {}
         lookedUpMibs = set()
         brokenMibImports = {}
+        # modules that were read and that no symbol table could be built from
+        # (as opposed to names that no source could serve)
+        unbuiltMibs = set()
         parsedFiles = set()
         sourcesAsked = {}
 
@@ -245,10 +248,6 @@ class MibCompiler(object):
 
             # has a source answered this name with a file that holds modules
             sourceAnswered = False
-
-            # has a source held the module of this name in a state that no
-            # symbol table could be built from
-            moduleFailed = False
 
             # a name that has been looked up as a file name goes on, as a
             # module name, where that search ended
@@ -327,11 +326,12 @@ class MibCompiler(object):
 
                             brokenMibs.add(mibTree[0])
 
+                            unbuiltMibs.add(mibTree[0])
+
                             if mibTree[0] == mibname:
                                 # this failure takes the place of an earlier
                                 # source's
                                 sourceFailed = False
-                                moduleFailed = True
 
                             if requested:
                                 # part of a requested file, as its sound
@@ -351,6 +351,8 @@ class MibCompiler(object):
                             del failedMibs[mibInfo.name]
 
                             brokenMibs.discard(mibInfo.name)
+
+                            unbuiltMibs.discard(mibInfo.name)
 
                             if processed.get(mibInfo.name) in (statusFailed, statusMissing):
                                 del processed[mibInfo.name]
@@ -406,8 +408,9 @@ class MibCompiler(object):
                     debug.logger & debug.flagCompiler and debug.logger('%serror %s from %s' % (
                         options.get('ignoreErrors') and 'ignoring ' or 'failing on ', exc, source))
 
-                    if moduleFailed:
-                        # an earlier source holds the module and its symbol
+                    if mibname in unbuiltMibs:
+                        # the module of that name has been read, from an
+                        # earlier source or another file, and its symbol
                         # table could not be built: that failure stands
                         continue
 
